@@ -442,12 +442,13 @@ Section History.
 
   Lemma do_write_inv n w st : Inv st -> Inv (fst (do_write sfx order wtab n w st)).
   Proof.
-    intros HI. destruct w as [x|l|l|p|rel data]; cbn [do_write].
+    intros HI. destruct w as [x|l|l|p|rel data|rel t]; cbn [do_write].
     - destruct (replace_layer_metadata n x st) as [st' r] eqn:E. eapply replace_with_inv; eauto.
     - destruct (on_dir n _ EWriteIo (fun _ => EWriteIo) st) as [st' r] eqn:E. eapply on_dir_inv; eauto.
     - unfold replace_layer_sboms. destruct (l_dir (lget n st)) eqn:Ed; cbn [fst]; [|exact HI].
       apply Inv_lset; [exact HI|]. intros X. cbn in X. congruence.
     - unfold replace_layer_exec_d. destruct (on_dir n _ EMissingLayer _ st) as [st' r] eqn:E. eapply on_dir_inv; eauto.
+    - destruct (on_dir n _ EWriteIo (fun _ => EWriteIo) st) as [st' r] eqn:E. eapply on_dir_inv; eauto.
     - destruct (on_dir n _ EWriteIo (fun _ => EWriteIo) st) as [st' r] eqn:E. eapply on_dir_inv; eauto.
   Qed.
 
